@@ -79,14 +79,15 @@ def run(res, proofs_ok, proofs_why, only=None):
         res.violation({"property": "C11", "kind": "obligation", "obligation": proofs_why}, found_input=False)
 
 
-def file_part(res):
+def file_part(res, results=None):
     """a daemon that starts over a file whose header says the segment has been published to (magic,
     version and generation non-zero, declared size large enough) - whatever the length of the file,
     a file cut short included - continues from that generation: after its first publication the
     generation is the protocol's successor of the value in the file, never a restart from 0"""
     import random, struct
     from props import _files as F
-    results, _ = F.run_corpus(res, "C11", random.Random(res.seed * 131 + 11), 0)
+    if results is None:
+        results, _ = F.run_corpus(res, "C11", random.Random(res.seed * 131 + 11), 0)
     bad = []
     for r in results:
         d, after = r["data"], r["after"]
